@@ -82,8 +82,9 @@ package group
 //@   modifies nothing
 //@   loop 0 (k):
 //@     invariant 0 <= k && k <= len(members) && cbcalls() == c0 + k
-//@     invariant forall j int :: 0 <= j && j < k ==> cbfn(c0 + j) == members[j] && cbresIface(c0 + j, 1) != nil
-//@     invariant k > 0 ==> firstErr == cbresIface(c0, 1)
+//@     invariant forall j int :: 0 <= j && j < k ==> cbfn(c0 + j) == members[j]
+//@     invariant forall j int :: 0 <= j && j < k ==> cbresIface(c0 + j, 1) != nil
+//@     invariant k > 0 ==> firstErr == cbresIface(c0, 1) && firstErr != nil
 //@     invariant k == 0 ==> firstErr == nil
 //@     decreases len(members) - k
 //@
